@@ -1136,3 +1136,55 @@ mut('C19', 'child-pr-wrong-target', BRANCHES,
 mut('C19', 'title-without-parent', BRANCHES,
     "        title = 'INTEGRATION [PR#%s > %s] %s' % (\n            parent_pr.id, self.dst_branch.name, parent_pr.title\n        )",
     "        title = 'INTEGRATION [PR#%s > %s] %s' % (\n            self.name, self.dst_branch.name, parent_pr.title\n        )")
+
+# ------------------------------------------------------------------- C20
+mut('C20', 'archive-tag-test-removed', CREATE,
+    "    if new_branch.version in repo.cmd('git tag').split('\\n')[:-1]:\n        raise exceptions.JobFailure('Cannot create branch %r because there is '\n                                    'already an archive tag %r in the '\n                                    'repository.' %\n                                    (new_branch, new_branch.version))\n",
+    "")
+mut('C20', 'validate-after-push', CREATE,
+    "    try:\n        new_cascade = BranchCascade()\n        new_cascade.build(job.git.repo)\n        new_cascade.validate()\n    except exceptions.BertE_Exception as excp:\n        raise exceptions.JobFailure('Requested new branch %r does not '\n                                    'conform to GWF rules (%s).' %\n                                    (new_branch, excp.__class__.__name__))\n\n    try:\n        push(repo, branches=[new_branch])\n    except CommandError:\n        raise exceptions.JobFailure('Unable to push new branch, '\n                                    'keep pushing.')\n",
+    "    try:\n        push(repo, branches=[new_branch])\n    except CommandError:\n        raise exceptions.JobFailure('Unable to push new branch, '\n                                    'keep pushing.')\n    try:\n        new_cascade = BranchCascade()\n        new_cascade.build(job.git.repo)\n        new_cascade.validate()\n    except exceptions.BertE_Exception as excp:\n        raise exceptions.JobFailure('Requested new branch %r does not '\n                                    'conform to GWF rules (%s).' %\n                                    (new_branch, excp.__class__.__name__))\n")
+mut('C20', 'queued-pr-test-removed', CREATE,
+    "        if queue_collection.queued_prs:\n            raise exceptions.JobFailure('Requested new branch %r cannot be '\n                                        'created now due to queued data.' %\n                                        new_branch)\n",
+    "        LOG.debug(queue_collection.queued_prs)\n")
+mut('C20', 'queued-pr-test-narrowed', CREATE,
+    "    if (job.settings.use_queue and\n            not isinstance(new_branch, StabilizationBranch) and\n            not isinstance(new_branch, HotfixBranch) and\n            new_branch < dev_branches[-1]):\n        queue_collection",
+    "    if (job.settings.use_queue and job.settings.interactive and\n            not isinstance(new_branch, StabilizationBranch) and\n            not isinstance(new_branch, HotfixBranch) and\n            new_branch < dev_branches[-1]):\n        queue_collection")
+mut('C20', 'tag-push-after-delete', DELETE,
+    "        repo.cmd('git push origin %s' % archive_tag)\n    except CommandError:\n        raise exceptions.JobFailure('Unable to push new tag, '\n                                    'keep pushing.')\n\n    do_delete(del_branch, force=True)\n",
+    "    except CommandError:\n        raise exceptions.JobFailure('Unable to push new tag, '\n                                    'keep pushing.')\n\n    do_delete(del_branch, force=True)\n    repo.cmd('git push origin %s' % archive_tag)\n")
+mut('C20', 'queued-read-after-removal', REBUILD,
+    "    queued_prs = queue_collection.queued_prs\n    LOG.debug('Currently queued PRs: %s', queued_prs)\n",
+    "")
+mut('C20', 'use-queue-guard-removed', REBUILD,
+    "    if not job.settings.use_queue:\n        raise exceptions.NotMyJob()\n    repo = clone_git_repo(job)",
+    "    repo = clone_git_repo(job)")
+mut('C20', 'stab-check-removed', DELETE,
+    "        if any([b.startswith(stab_prefix) for b in repo.remote_branches]):\n            raise exceptions.JobFailure('Cannot delete branch %r because '\n                                        'there is an active stabilization '\n                                        'branch in the repository.' %\n                                        del_branch)\n",
+    "        LOG.debug(stab_prefix)\n")
+mut('C20', 'queued-data-check-after-queue-delete', DELETE,
+    "        queue_collection = build_queue_collection(job)\n        if queue_collection.has_version_queued_prs(del_branch.version_t):\n            raise exceptions.JobFailure('Requested branch %r cannot be '\n                                        'deleted now due to queued data.' %\n                                        del_branch)\n\n        # delete local q branch\n        del_queue = QueueBranch(repo, 'q/%s' % del_branch.version)\n        do_delete(del_queue)\n",
+    "        # delete local q branch\n        del_queue = QueueBranch(repo, 'q/%s' % del_branch.version)\n        do_delete(del_queue)\n        queue_collection = build_queue_collection(job)\n        if queue_collection.has_version_queued_prs(del_branch.version_t):\n            raise exceptions.JobFailure('Requested branch %r cannot be '\n                                        'deleted now due to queued data.' %\n                                        del_branch)\n\n")
+mut('C20', 'rebuild-reversed', REBUILD,
+    "    for pr_id in queued_prs:", "    for pr_id in reversed(queued_prs):")
+mut('C20', 'rebuild-skips-some', REBUILD,
+    "    for pr_id in queued_prs:\n        job.bert_e.put_job(",
+    "    for pr_id in queued_prs:\n        if pr_id in job.bert_e.status.get('merged PRs', []):\n            continue\n        job.bert_e.put_job(")
+mut('C20', 'rebuild-before-push', REBUILD,
+    "    push(repo, prune=True)\n    LOG.debug('Queues deleted, waking PRs up')\n\n    # Trigger Bert-E on all previously queued PRs to rebuild the queue.\n    for pr_id in queued_prs:\n        job.bert_e.put_job(\n            PullRequestJob(\n                bert_e=job.bert_e,\n                pull_request=job.project_repo.get_pull_request(pr_id)\n            )\n        )\n",
+    "    for pr_id in queued_prs:\n        job.bert_e.put_job(\n            PullRequestJob(\n                bert_e=job.bert_e,\n                pull_request=job.project_repo.get_pull_request(pr_id)\n            )\n        )\n    push(repo, prune=True)\n")
+mut('C20', 'delete-queues-all-w', DELQ,
+    "        if b.startswith('q/')\n    ]", "        if b.startswith('q/') or b.startswith('w/')\n    ]")
+mut('C20', 'force-merge-not-forced', FORCE,
+    "    handle_merge_queues(QueuesJob(bert_e=job.bert_e, force_merge=True))",
+    "    handle_merge_queues(QueuesJob(bert_e=job.bert_e))")
+mut('C20', 'exists-check-removed', CREATE,
+    "    if job.settings.branch in repo.remote_branches:\n        raise exceptions.NothingToDo()\n", "")
+mut('C20', 'branching-point-unchecked', CREATE,
+    "        if not dev_branches[-1].includes_commit(job.settings.branch_from):\n            raise exceptions.JobFailure('Provided branching point %r is not '\n                                        'included in latest development '\n                                        'branch.' % job.settings.branch_from)\n",
+    "        pass\n")
+mut('C20', 'delete-nonexistent-continues', DELETE,
+    "    if job.settings.branch not in repo.remote_branches:\n        raise exceptions.NothingToDo()\n", "")
+mut('C20', 'push-before-checks', CREATE,
+    "    cascade = BranchCascade()\n    cascade.build(job.git.repo)\n    dev_branches = cascade.get_development_branches()\n",
+    "    cascade = BranchCascade()\n    cascade.build(job.git.repo)\n    dev_branches = cascade.get_development_branches()\n    push(repo, prune=False)\n")
